@@ -414,6 +414,10 @@ def api_cases():
     c.append((f'{R4} extended-community [ 0x0002FDE8000001 ]', False, None))
     c.append((f'{R4} extended-community [ target:65000:4294967295 ]', True, _attr_on_wire(16, bytes.fromhex('0002fde8ffffffff'))))
     c.append((f'{R4} extended-community [ target:65000:4294967296 ]', False, None))
+    # the last 2-octet AS: still the two-octet-AS-specific type, with its 4 octets of local administrator
+    c.append((f'{R4} extended-community [ target:65535:4294967295 ]', True, _attr_on_wire(16, bytes.fromhex('0002ffffffffffff'))))
+    c.append((f'{R4} extended-community [ target:65535:1 ]', True, _attr_on_wire(16, bytes.fromhex('0002ffff00000001'))))
+    c.append((f'{R4} extended-community [ origin:65535:100000 ]', True, _attr_on_wire(16, bytes.fromhex('0003ffff000186a0'))))
     c.append((f'{R4} extended-community [ target:65536:65535 ]', True, _attr_on_wire(16, bytes.fromhex('020200010000ffff'))))
     c.append((f'{R4} extended-community [ target:65536:65536 ]', False, None))
     c.append((f'{R4} extended-community [ target:4294967296:1 ]', False, None))
@@ -607,7 +611,9 @@ def history_pairs(tier):
     cs = [t for t, _m, _c in api_cases()]
     firsts = [t for t in cs if '{' in t or 'attribute' in t or 'label' in t][:: (1 if tier == 'thorough' else 3)]
     firsts += ['announce route 10.9.0.0/24 { next-hop 192.0.2.1 ; med 4294967296 ; }', 'announce route 10.9.0.0/24 { next-hop 192.0.2.1 ; med 7 ; }']
-    seconds = [R4, 'announce route 10.1.0.0/24 next-hop 192.0.2.1 med 5', 'announce attributes next-hop 192.0.2.1 med 9 nlri 10.0.0.0/24', 'announce flow route { match { destination 10.0.0.0/24; } then { discard; } }', 'announce vpls rd 65000:1 endpoint 5 base 10702 offset 1 size 8 next-hop 192.0.2.1', 'announce route 10.0.0.0/24 med 3']
+    # a rule whose first action is followed by others: an action object shared between rules would carry them over
+    firsts += ['announce flow route { match { destination 10.1.0.0/24; } then { discard; mark 5; extended-community [ target:65000:9 ]; } }', 'announce flow route { match { destination 10.1.0.0/24; } then { redirect 65000:1; mark 5; } }', 'announce flow route { match { destination 10.1.0.0/24; } then { rate-limit 9600; community [ 65000:9 ]; } }']
+    seconds = ['announce flow route { match { destination 10.2.0.0/24; } then { redirect 65000:1; } }', 'announce flow route { match { destination 10.2.0.0/24; } then { rate-limit 9600; } }', R4, 'announce route 10.1.0.0/24 next-hop 192.0.2.1 med 5', 'announce attributes next-hop 192.0.2.1 med 9 nlri 10.0.0.0/24', 'announce flow route { match { destination 10.0.0.0/24; } then { discard; } }', 'announce vpls rd 65000:1 endpoint 5 base 10702 offset 1 size 8 next-hop 192.0.2.1', 'announce route 10.0.0.0/24 med 3']
     if tier == 'thorough':
         firsts = cs
     seen = set()
